@@ -1,6 +1,476 @@
-//! C03 — not built yet.
+//! C03 — decoders are total: any input gives a value or an error, never a crash or hang.
+//!
+//! input: `<mode> <hex bytes> [params]`
+//!   dec   : Parser::make(cursor).parse_value() (and from_str when the bytes are UTF-8)      -> `C03 dec H`
+//!   rows  : parse_grid_iterator driven to the end over a counting reader                     -> `C03 rows H`
+//!   json  : serde_json::from_slice::<Value>                                                  (oracle only)
+//!   io    : decode through a reader that delivers `chunk`-sized reads, injects `Interrupted`, and
+//!           fails with an I/O error from offset `fail_at` on (`-` = never)                    (oracle only)
+//! A panic is caught by the runner (kind `panic`), a hang by the watchdog (kind `hang`), an abort
+//! (stack overflow) by `check` (kind `abort`); each carries this input as the replay.
+
 use crate::ctx::{CaseOut, Ctx};
+use crate::gen::{self, Cfg};
+use crate::vx;
+use libhaystack::encoding::zinc::decode::parser::Parser;
+use libhaystack::encoding::zinc::decode::{from_str, parse_grid_iterator};
+use libhaystack::encoding::zinc::encode::to_zinc_string;
+use libhaystack::val::*;
+use std::io::{Cursor, Read};
 
-pub fn exec(_label: &str, _input: &str, _out: &mut CaseOut) {}
+/// counts the bytes handed out
+pub struct CountingReader<'a> {
+    pub data: &'a [u8],
+    pub pos: usize,
+}
+impl<'a> Read for CountingReader<'a> {
+    fn read(&mut self, buf: &mut [u8]) -> std::io::Result<usize> {
+        let n = buf.len().min(self.data.len() - self.pos);
+        buf[..n].copy_from_slice(&self.data[self.pos..self.pos + n]);
+        self.pos += n;
+        Ok(n)
+    }
+}
 
-pub fn generate(_ctx: &mut Ctx) {}
+/// delivers at most `chunk` bytes per read, returns `Interrupted` before every `intr`-th read,
+/// and fails with an I/O error once `fail_at` bytes have been delivered
+pub struct FaultyReader<'a> {
+    pub data: &'a [u8],
+    pub pos: usize,
+    pub chunk: usize,
+    pub intr: usize,
+    pub fail_at: Option<usize>,
+    pub calls: usize,
+    pub transient: bool,
+    pub failed_once: bool,
+}
+impl<'a> Read for FaultyReader<'a> {
+    fn read(&mut self, buf: &mut [u8]) -> std::io::Result<usize> {
+        self.calls += 1;
+        if self.intr > 0 && self.calls % self.intr == 0 {
+            return Err(std::io::Error::new(std::io::ErrorKind::Interrupted, "interrupted"));
+        }
+        if let Some(k) = self.fail_at {
+            if self.pos >= k && !(self.transient && self.failed_once) {
+                self.failed_once = true;
+                return Err(std::io::Error::new(std::io::ErrorKind::Other, "injected I/O error"));
+            }
+        }
+        let mut n = buf.len().min(self.chunk.max(1)).min(self.data.len() - self.pos);
+        if let Some(k) = self.fail_at {
+            if self.pos < k {
+                n = n.min(k - self.pos);
+            }
+        }
+        buf[..n].copy_from_slice(&self.data[self.pos..self.pos + n]);
+        self.pos += n;
+        Ok(n)
+    }
+}
+
+pub fn decode_bytes(bytes: &[u8]) -> Result<Value, ()> {
+    let mut cur = Cursor::new(bytes);
+    let mut parser = Parser::make(&mut cur).map_err(|_| ())?;
+    parser.parse_value().map_err(|_| ())
+}
+
+pub fn dec_reply(bytes: &[u8]) -> String {
+    match decode_bytes(bytes) {
+        Ok(v) => format!("ok {}", vx::show(&v)),
+        Err(_) => "err".into(),
+    }
+}
+
+/// `ok (r <consumed> {dict} | e)* end` or `err` when the header does not parse
+pub fn rows_reply(bytes: &[u8]) -> String {
+    let mut rd = CountingReader { data: bytes, pos: 0 };
+    let mut parser = match Parser::make(&mut rd) {
+        Ok(p) => p,
+        Err(_) => return "err".into(),
+    };
+    let mut toks: Vec<String> = vec!["ok".into()];
+    // the reader is borrowed by the parser: observe consumption through a raw pointer to `pos`
+    let it = match parse_grid_iterator(&mut parser) {
+        Ok(it) => it,
+        Err(_) => return "err".into(),
+    };
+    let mut n = 0usize;
+    for item in it {
+        n += 1;
+        if n > bytes.len() + 3 {
+            toks.push("unbounded".into());
+            return toks.join(" ");
+        }
+        match item {
+            Ok(row) => {
+                toks.push("r".into());
+                toks.push("?".into()); // consumption is filled in by rows_reply_counted
+                vx::w_dict(&row, &mut toks);
+            }
+            Err(_) => {
+                toks.push("e".into());
+                break;
+            }
+        }
+    }
+    toks.push("end".into());
+    toks.join(" ")
+}
+
+/// same as `rows_reply`, with the number of bytes the scanner had pulled from the reader when each
+/// row was handed out (a shared counter the reader updates)
+pub fn rows_reply_counted(bytes: &[u8]) -> String {
+    use std::cell::Cell;
+    use std::rc::Rc;
+    struct Shared<'a> {
+        data: &'a [u8],
+        pos: Rc<Cell<usize>>,
+    }
+    impl<'a> Read for Shared<'a> {
+        fn read(&mut self, buf: &mut [u8]) -> std::io::Result<usize> {
+            let p = self.pos.get();
+            let n = buf.len().min(self.data.len() - p);
+            buf[..n].copy_from_slice(&self.data[p..p + n]);
+            self.pos.set(p + n);
+            Ok(n)
+        }
+    }
+    let pos = Rc::new(Cell::new(0usize));
+    let mut rd = Shared { data: bytes, pos: pos.clone() };
+    let mut parser = match Parser::make(&mut rd) {
+        Ok(p) => p,
+        Err(_) => return "err".into(),
+    };
+    let it = match parse_grid_iterator(&mut parser) {
+        Ok(it) => it,
+        Err(_) => return "err".into(),
+    };
+    let mut toks: Vec<String> = vec!["ok".into()];
+    let mut n = 0usize;
+    for item in it {
+        n += 1;
+        if n > bytes.len() + 3 {
+            toks.push("unbounded".into());
+            return toks.join(" ");
+        }
+        match item {
+            Ok(row) => {
+                toks.push("r".into());
+                toks.push(pos.get().to_string());
+                vx::w_dict(&row, &mut toks);
+            }
+            Err(_) => {
+                toks.push("e".into());
+                break;
+            }
+        }
+    }
+    toks.push("end".into());
+    toks.join(" ")
+}
+
+pub fn exec(_label: &str, input: &str, out: &mut CaseOut) {
+    let mut parts = input.split(' ');
+    let mode = parts.next().unwrap_or("");
+    let bytes = match parts.next().and_then(vx::unhex) {
+        Some(b) => b,
+        None => {
+            out.fail("harness", "unparsable C03 input".into());
+            return;
+        }
+    };
+    out.nontrivial = !bytes.is_empty();
+    match mode {
+        "dec" => {
+            let reply = dec_reply(&bytes);
+            out.stat(if reply == "err" { "dec:err" } else { "dec:ok" });
+            if let Ok(s) = std::str::from_utf8(&bytes) {
+                let r2 = match from_str(s) {
+                    Ok(v) => format!("ok {}", vx::show(&v)),
+                    Err(_) => "err".into(),
+                };
+                if r2 != reply {
+                    out.fail("from_str_vs_parser", format!("from_str gives {r2}, Parser gives {reply}"));
+                }
+            }
+            out.req(format!("C03 dec {}", vx::hex(&bytes)), reply);
+        }
+        "rows" => {
+            let reply = rows_reply_counted(&bytes);
+            out.stat(if reply == "err" { "rows:err" } else { "rows:ok" });
+            out.req(format!("C03 rows {}", vx::hex(&bytes)), reply);
+        }
+        "json" => {
+            let r: Result<Value, _> = serde_json::from_slice(&bytes);
+            out.stat(if r.is_ok() { "json:ok" } else { "json:err" });
+            if let Ok(s) = std::str::from_utf8(&bytes) {
+                let r2: Result<Value, _> = serde_json::from_str(s);
+                if r.is_ok() != r2.is_ok() {
+                    out.fail("json_str_vs_slice", "from_str and from_slice disagree".into());
+                }
+            }
+        }
+        "io" => {
+            let chunk: usize = parts.next().and_then(|s| s.parse().ok()).unwrap_or(1);
+            let intr: usize = parts.next().and_then(|s| s.parse().ok()).unwrap_or(0);
+            let fail_tok = parts.next().unwrap_or("-");
+            let transient = parts.next() == Some("t");
+            let fail_at: Option<usize> = fail_tok.parse().ok();
+            let plain = decode_bytes(&bytes);
+            let mut rd = FaultyReader { data: &bytes, pos: 0, chunk, intr, fail_at, calls: 0, transient, failed_once: false };
+            let got = match Parser::make(&mut rd) {
+                Ok(mut p) => p.parse_value().map_err(|_| ()),
+                Err(_) => Err(()),
+            };
+            out.stat(if fail_at.is_some() { "io:fault" } else { "io:chunked" });
+            if fail_at.is_none() {
+                // chunking and Interrupted must be invisible
+                let a = plain.as_ref().map(vx::show).map_err(|_| ());
+                let b = got.as_ref().map(vx::show).map_err(|_| ());
+                if a != b {
+                    out.fail("chunk_variance", format!("chunk={chunk} intr={intr}: {b:?} instead of {a:?}"));
+                }
+            }
+            // rows through the same reader
+            let mut rd = FaultyReader { data: &bytes, pos: 0, chunk, intr, fail_at, calls: 0, transient, failed_once: false };
+            if let Ok(mut p) = Parser::make(&mut rd) {
+                if let Ok(it) = parse_grid_iterator(&mut p) {
+                    let mut n = 0usize;
+                    for item in it {
+                        n += 1;
+                        if n > bytes.len() + 3 {
+                            out.fail("unbounded_iterator", "the row iterator keeps yielding items".into());
+                            break;
+                        }
+                        if item.is_err() {
+                            break;
+                        }
+                    }
+                }
+            }
+        }
+        _ => out.fail("harness", format!("unknown mode {mode}")),
+    }
+}
+
+pub fn zinc_alphabet_bytes(rng: &mut crate::rng::Rng, n: usize) -> Vec<u8> {
+    const TOKENS: &[&str] = &[
+        "ver:\"3.0\"", "\n", "\r\n", "\r", ",", " ", "  ", "\t", "[", "]", "{", "}", "<<", ">>", "<", ">", ":", "a", "b", "dis", "empty", "N", "NA",
+        "M", "R", "T", "F", "NaN", "INF", "-INF", "-", "1", "12", "-3.5", "1e5", "1E-3", "5kW", "100%", "1_000", "2021-03-04", "12:30:00",
+        "12:30:00.123", "2021-03-04T12:30:00Z", "2021-03-04T12:30:00-05:00 New_York", "2021-03-04T12:30:00Z UTC", "@a", "@a \"x\"", "^sym",
+        "\"str\"", "\"a\\nb\"", "\"\\u00e9\"", "\"", "`uri`", "`", "\\", "C(1,2)", "C(", "Bin(\"x\")", "Xyz", "(", ")", "é", "\u{1F600}", "$", "_", ".",
+        "0", "9999", "e", "E", "Z", "+", "/",
+    ];
+    let mut out = Vec::new();
+    while out.len() < n {
+        if rng.chance(1, 12) {
+            out.push(rng.below(256) as u8);
+        } else {
+            out.extend_from_slice(rng.pick(TOKENS).as_bytes());
+        }
+    }
+    out
+}
+
+pub fn mutate_bytes(rng: &mut crate::rng::Rng, b: &[u8]) -> Vec<u8> {
+    let mut v = b.to_vec();
+    if v.is_empty() {
+        return vec![rng.below(256) as u8];
+    }
+    let i = rng.below(v.len() as u64) as usize;
+    match rng.below(6) {
+        0 => v[i] ^= 1 << rng.below(8),
+        1 => v.insert(i, rng.below(256) as u8),
+        2 => {
+            v.remove(i);
+        }
+        3 => {
+            let c = v[i];
+            v.insert(i, c);
+        }
+        4 => {
+            // token splice
+            let t = zinc_alphabet_bytes(rng, 1);
+            for (k, c) in t.iter().enumerate() {
+                v.insert(i + k, *c);
+            }
+        }
+        _ => {
+            // delete a run
+            let n = (rng.below(6) as usize + 1).min(v.len() - i);
+            v.drain(i..i + n);
+        }
+    }
+    v
+}
+
+pub fn sample_docs(ctx: &mut Ctx, n: u64) -> Vec<Vec<u8>> {
+    let mut docs: Vec<Vec<u8>> = Vec::new();
+    let fixed: &[&str] = &[
+        "ver:\"3.0\"\na\n1,2\n",
+        "ver:\"3.0\"\na\n\"x\" ",
+        "ver:\"3.0\"\nempty\n\nver:\"3.0\"\nemp\n",
+        "ver:\"3.0\" dis:\"x\" m\na dis:\"A\",b,c u:`x`\n1,,3\n,N,\n\n",
+        "ver:\"3.0\"\r\na,b\r\n1,2\r\n",
+        "ver:\"3.0\"\ra,b\r1,2\r",
+        "ver:\"2.0\"\nid,dis\n@a \"A\",\"x\"\n@b,\n",
+        "[1, 2 ,3,]",
+        "{a:1 b:\"x\", c}",
+        "[<<\nver:\"3.0\"\na\n1\n>>,2]",
+        "ver:\"3.0\"\na\n<<\nver:\"3.0\"\nb\n<<\nver:\"3.0\"\nc\n1\n>>\n>>\n",
+        "2021-03-04T12:30:00-05:00 New_York",
+        "2021-03-04T12:30:00Z",
+        "1.5e-3kW",
+        "C(37.5,-77.4)",
+        "Bin(\"text/plain\")",
+        "@p:demo:r:1 \"Dis \\\"x\\\"\"",
+    ];
+    for f in fixed {
+        docs.push(f.as_bytes().to_vec());
+    }
+    while (docs.len() as u64) < n {
+        let mut rng = ctx.rng.fork();
+        let cfg = if rng.chance(3, 4) { Cfg::wf(3) } else { Cfg::any(3) };
+        let v = if rng.chance(1, 2) { Value::Grid(gen::grid(&mut rng, &cfg, 0)) } else { gen::value(&mut rng, &cfg) };
+        if let Ok(Ok(t)) = std::panic::catch_unwind(|| to_zinc_string(&v)) {
+            if t.len() < 600 {
+                docs.push(t.into_bytes());
+            }
+        }
+    }
+    docs
+}
+
+pub fn generate(ctx: &mut Ctx) {
+    let docs = sample_docs(ctx, ctx.n(40, 300));
+    // every prefix of every document, whole value and row by row
+    for d in &docs {
+        for k in 0..=d.len() {
+            let h = vx::hex(&d[..k]);
+            ctx.case("prefix:dec", &format!("dec {h}"));
+            if d.starts_with(b"ver") {
+                ctx.case("prefix:rows", &format!("rows {h}"));
+            }
+        }
+    }
+    // mutants
+    let n = ctx.n(3000, 150_000);
+    for _ in 0..n {
+        let mut rng = ctx.rng.fork();
+        let d = rng.pick(&docs).clone();
+        let mut m = mutate_bytes(&mut rng, &d);
+        if rng.chance(1, 3) {
+            m = mutate_bytes(&mut rng, &m);
+        }
+        let h = vx::hex(&m);
+        ctx.case("mutant:dec", &format!("dec {h}"));
+        if rng.chance(1, 2) {
+            ctx.case("mutant:rows", &format!("rows {h}"));
+        }
+    }
+    // token soup and raw bytes
+    let n = ctx.n(3000, 150_000);
+    for _ in 0..n {
+        let mut rng = ctx.rng.fork();
+        let len = rng.below(40) as usize + 1;
+        let b = if rng.chance(1, 5) { (0..len).map(|_| rng.below(256) as u8).collect() } else { zinc_alphabet_bytes(&mut rng, len) };
+        let h = vx::hex(&b);
+        ctx.case("soup:dec", &format!("dec {h}"));
+        if rng.chance(1, 3) {
+            let mut g = b"ver:\"3.0\"\na,b\n".to_vec();
+            g.extend_from_slice(&b);
+            ctx.case("soup:rows", &format!("rows {}", vx::hex(&g)));
+        }
+    }
+    // nesting depth 1 .. 10^5 (Zinc: model + implementation; JSON: implementation)
+    let depths: &[usize] = if ctx.quick() { &[1, 10, 63, 64, 65, 100, 1000, 100_000] } else { &[1, 2, 10, 32, 63, 64, 65, 66, 100, 128, 129, 1000, 10_000, 100_000] };
+    for &d in depths {
+        for (open, close) in [("[", "]"), ("{a:", "}"), ("<<\nver:\"3.0\"\na\n", "\n>>"), ("[{a:", "}]")] {
+            let mut s = String::new();
+            for _ in 0..d {
+                s.push_str(open);
+            }
+            let unterminated = s.clone();
+            s.push('1');
+            for _ in 0..d {
+                s.push_str(close);
+            }
+            // the Lean model walks lists: keep the largest inputs for the implementation only
+            if s.len() <= 4000 {
+                ctx.case("deep:dec", &format!("dec {}", vx::h(&s)));
+                ctx.case("deep:dec", &format!("dec {}", vx::h(&unterminated)));
+            } else {
+                ctx.case("deep:io", &format!("io {} 4096 0 -", vx::h(&s)));
+                ctx.case("deep:io", &format!("io {} 4096 0 -", vx::h(&unterminated)));
+            }
+        }
+        for (open, close) in [("[", "]"), ("{\"a\":", "}"), ("{\"_kind\":\"dict\",\"a\":[", "]}")] {
+            let mut s = String::new();
+            for _ in 0..d {
+                s.push_str(open);
+            }
+            let unterminated = s.clone();
+            s.push('1');
+            for _ in 0..d {
+                s.push_str(close);
+            }
+            ctx.case("deep:json", &format!("json {}", vx::h(&s)));
+            ctx.case("deep:json", &format!("json {}", vx::h(&unterminated)));
+        }
+    }
+    // JSON: prefixes and mutants of encoder output
+    let n = ctx.n(60, 400);
+    for _ in 0..n {
+        let mut rng = ctx.rng.fork();
+        let v = gen::value(&mut rng, &Cfg::any(3));
+        if let Ok(j) = serde_json::to_string(&v) {
+            let jb = j.as_bytes();
+            if jb.len() < 400 {
+                for k in 0..=jb.len() {
+                    ctx.case("prefix:json", &format!("json {}", vx::hex(&jb[..k])));
+                }
+            }
+            for _ in 0..20 {
+                let m = mutate_bytes(&mut rng, jb);
+                ctx.case("mutant:json", &format!("json {}", vx::hex(&m)));
+            }
+        }
+    }
+    for j in [
+        "{\"_kind\":\"xstr\",\"type\":\"\",\"val\":\"x\"}", "{\"_kind\":\"\\u0000x\"}", "{\"_kind\":1}", "{\"_kind\":\"grid\"}",
+        "{\"_kind\":\"grid\",\"cols\":[1],\"rows\":[]}", "{\"_kind\":\"grid\",\"cols\":[],\"rows\":[1]}", "{\"_kind\":\"number\",\"val\":\"INF\"}",
+        "{\"_kind\":\"number\",\"val\":\"x\"}", "{\"_kind\":\"dateTime\",\"val\":\"2021-01-01T00:00:00+99:00\"}", "{\"_kind\":\"coord\",\"lat\":\"a\"}",
+        "1e999", "-1e999", "18446744073709551616", "[1,]", "{\"a\":}", "\u{feff}1",
+    ] {
+        ctx.case("fixed:json", &format!("json {}", vx::h(j)));
+    }
+    // chunked / interrupted / failing readers
+    let ndocs = ctx.n(12, 100).min(docs.len() as u64) as usize;
+    for d in docs.iter().take(ndocs) {
+        let h = vx::hex(d);
+        for chunk in [1usize, 2, 3, 7, 64] {
+            for intr in [0usize, 2, 3] {
+                ctx.case("io:chunk", &format!("io {h} {chunk} {intr} -"));
+            }
+        }
+        let step = if ctx.quick() { 3 } else { 1 };
+        for k in (0..=d.len()).step_by(step) {
+            ctx.case("io:fail", &format!("io {h} 5 0 {k}"));
+            ctx.case("io:fail", &format!("io {h} 1 3 {k} t"));
+        }
+    }
+    // corpus files shipped with the repository (thorough: every prefix of the first 4 KiB)
+    if !ctx.quick() {
+        for f in ["/repo/benches/zinc/points.zinc", "/repo/tests/defs/defs.zinc"] {
+            if let Ok(data) = std::fs::read(f) {
+                let lim = data.len().min(4096);
+                for k in 0..=lim {
+                    ctx.case("corpus:dec", &format!("dec {}", vx::hex(&data[..k])));
+                    if k % 7 == 0 {
+                        ctx.case("corpus:rows", &format!("rows {}", vx::hex(&data[..k])));
+                    }
+                }
+            }
+        }
+    }
+}
